@@ -143,6 +143,20 @@ RelabelOne(d, i, v) ==     \* ds.axes[d][i] = v
   /\ Bound /\ HasName(d) /\ i <= Len(objs[IdOf(d)].labs)
   /\ objs' = [objs EXCEPT ![IdOf(d)].labs[i] = v] /\ UNCHANGED <<dsaxes, vars, direct>>
   /\ Record("relabel_one", [d |-> d, i |-> i, v |-> v], TRUE)
+\* the same two changes made through one of the variables: ds[k].set_axis(labs, axis=j) and ds[k].axes[j][i] = v change the
+\* shared object, hence the dataset and every other variable that has the dimension
+SetAxisViaVar(k, j, labs) ==
+  /\ Bound /\ HasKey(k) /\ j <= Len(VarOf(k).axes) /\ Len(labs) = Len(objs[VarOf(k).axes[j]].labs)
+  /\ objs' = [objs EXCEPT ![VarOf(k).axes[j]].labs = labs] /\ UNCHANGED <<dsaxes, vars, direct>>
+  /\ Record("set_axis_var", [k |-> k, j |-> j, labs |-> labs], TRUE)
+RelabelOneViaVar(k, j, i, v) ==
+  /\ Bound /\ HasKey(k) /\ j <= Len(VarOf(k).axes) /\ i <= Len(objs[VarOf(k).axes[j]].labs)
+  /\ objs' = [objs EXCEPT ![VarOf(k).axes[j]].labs[i] = v] /\ UNCHANGED <<dsaxes, vars, direct>>
+  /\ Record("relabel_one_var", [k |-> k, j |-> j, i |-> i, v |-> v], TRUE)
+RenameViaVarSetAxis(k, j, n) ==   \* ds[k].set_axis(name=n, axis=j)
+  /\ Bound /\ HasKey(k) /\ j <= Len(VarOf(k).axes) /\ ~HasName(n)
+  /\ Rename(VarOf(k).axes[j], n) /\ UNCHANGED <<dsaxes, vars, direct>>
+  /\ Record("rename_var_set_axis", [k |-> k, j |-> j, n |-> n], TRUE)
 ReplaceAxisObject(d, labs) ==   \* ds.axes[d] = Axis(labs, d): a new object, installed in every variable that has d
   /\ Bound /\ HasName(d) /\ Cardinality(TakenIds) < MaxId /\ Len(labs) = Len(objs[IdOf(d)].labs)
   /\ LET old == IdOf(d)
@@ -165,6 +179,27 @@ Pure(kind, args) ==
   /\ Bound /\ Len(vars) > 0 /\ direct = {} /\ UNCHANGED state      \* (a copy does not carry axes that no variable uses)
   /\ Record(kind, args, TRUE)
 
+\* ... and the program goes on with the returned Dataset (ds = ds.copy(), ds = ds.rename_axes(.., inplace=False), ...): it has
+\* the same projection as the in-place operation would give, it must obey the same rules under every later mutation, and the
+\* Dataset it came from must never change again (the harness keeps every abandoned Dataset and re-projects it after each step).
+\* Axis identities are renewed by the copy; the abstract heap is the same up to renaming of ids, so the ids are kept.
+\* The copy lists its axes in the order of their first appearance in the variables (the original's order depends on its history;
+\* the property promises the set of dimensions, the machine records the order the code produces).
+RECURSIVE AxOrder(_, _)
+AxOrder(vs, acc) == IF vs = <<>> THEN acc
+                    ELSE AxOrder(Tail(vs), acc \o SelectSeq(Head(vs).axes, LAMBDA id : \A q \in 1..Len(acc) : acc[q] # id))
+ContinueOn(kind, args) ==
+  /\ Bound /\ Len(vars) > 0 /\ direct = {}
+  /\ dsaxes' = AxOrder(vars, <<>>) /\ direct' = direct
+  /\ CASE kind = "copy" -> UNCHANGED <<objs, vars>>
+       [] kind = "rename_axes_copy" -> HasName(args.d) /\ ~HasName(args.n) /\ Rename(IdOf(args.d), args.n) /\ UNCHANGED vars
+       [] kind = "set_axis_copy" -> HasName(args.d) /\ Len(args.labs) = Len(objs[IdOf(args.d)].labs)
+                                    /\ objs' = [objs EXCEPT ![IdOf(args.d)].labs = args.labs] /\ UNCHANGED vars
+       [] kind = "rename_keys_copy" -> HasKey(args.k) /\ ~HasKey(args.n)
+                                    /\ vars' = Append(SelectSeq(vars, LAMBDA v : v.key # args.k), [VarOf(args.k) EXCEPT !.key = args.n])
+                                    /\ UNCHANGED objs
+  /\ Record("continue_" \o kind, args, TRUE)
+
 AllNames == Base \cup {Alt(b) : b \in Base}
 Next ==
   \/ \E k \in Keys : \E c \in Candidates : SetVar(k, c)
@@ -173,6 +208,13 @@ Next ==
   \/ \E d \in AllNames : RenameViaDs(d, Alt(d)) \/ RenameAxes(d, Alt(d))
   \/ \E d \in AllNames : HasName(d) /\ objs[IdOf(d)].labs \in LabVariants /\
         (SetAxisValues(d, OtherLabs(objs[IdOf(d)].labs)) \/ ReplaceAxisObject(d, OtherLabs(objs[IdOf(d)].labs)))
+  \/ \E k \in Keys : \E j \in 1..2 : HasKey(k) /\ j <= Len(VarOf(k).axes) /\ objs[VarOf(k).axes[j]].labs \in LabVariants /\
+        (SetAxisViaVar(k, j, OtherLabs(objs[VarOf(k).axes[j]].labs)) \/ RelabelOneViaVar(k, j, 1, objs[VarOf(k).axes[j]].labs[1] + 1)
+         \/ RenameViaVarSetAxis(k, j, Alt(NameOf(VarOf(k).axes[j]))))
+  \/ \E kind \in {"copy", "rename_axes_copy", "set_axis_copy", "rename_keys_copy"} :
+        Len(dsaxes) > 0 /\ Len(vars) > 0 /\ objs[dsaxes[1]].labs \in LabVariants /\
+        ContinueOn(kind, [d |-> NameOf(dsaxes[1]), n |-> IF kind = "rename_keys_copy" THEN (CHOOSE q \in Keys : q # vars[1].key) ELSE Alt(NameOf(dsaxes[1])),
+                          k |-> vars[1].key, labs |-> OtherLabs(objs[dsaxes[1]].labs)])
   \/ \E d \in Base : AppendAxis(d, L1)
   \/ \E d \in AllNames : \E i \in 1..2 : HasName(d) /\ i <= Len(objs[IdOf(d)].labs) /\ objs[IdOf(d)].labs \in LabVariants
                                           /\ RelabelOne(d, i, objs[IdOf(d)].labs[i] + 1)
